@@ -1,11 +1,11 @@
 #!/bin/sh
 # usage: seedall.sh [ids...]  -- run every seeded change (or the named ones) against the check(s) of its property
 # (meta.json "checks" lists them when a change is caught by another property's check); prints a table
-cd /verif
+cd "$(dirname "$0")/.." || exit 2; V=$(pwd)
 ids=${*:-$(ls seeded | grep -v RESULTS)}
 for n in $ids; do
   ps=$(python3 -c "import json;m=json.load(open('seeded/$n/meta.json'));print(' '.join(m.get('checks',[m['property']])))")
-  r=$(tools/seedrun.sh /verif/seeded/$n $ps 2>&1)
+  r=$(tools/seedrun.sh $V/seeded/$n $ps 2>&1)
   v=$(echo "$r" | grep -c "^VIOLATION")
   i=$(echo "$r" | grep -c "^INCONCLUSIVE")
   echo "$n checks=$(echo $ps | tr ' ' ',') violations=$v inconclusive=$i $(echo "$r" | grep '^SEED' | sed 's/.*exit=/exit=/' | tr '\n' ' ')"
